@@ -1255,3 +1255,246 @@ def spec_hyphen_value_guard(fns, consts):
 
 SPECS["C02"].append(spec_hyphen_value_guard)
 SPECS["C08"].append(spec_hyphen_value_guard)
+
+
+# ------------------------------------------------------------------ C03/C10: one step of each loop of Validator::validate_required
+
+def _block_calling(fn, rx):
+    c = [b for b, blk in fn.blocks.items() if blk["stmts"] and re.search(rx, blk["stmts"][-1])]
+    if len(c) != 1:
+        raise Unsupported(f"{fn.name}: expected one block calling /{rx}/, found {len(c)}")
+    return c[0]
+
+
+def _arms(fn, header):
+    """the (None-arm, Some-arm) blocks of `match iter.next()` whose call is the terminator of `header`"""
+    m = re.search(r"return: (bb\d+)", fn.blocks[header]["stmts"][-1])
+    sw = fn.blocks[m.group(1)]["stmts"][-1]
+    m = re.match(r"^switchInt\(.*\) -> \[0: (bb\d+), 1: (bb\d+), otherwise: bb\d+\];?$", sw)
+    if not m:
+        raise Unsupported(f"{fn.name}: loop header {header} is not followed by a match on next()")
+    return m.group(1), m.group(2)
+
+
+def spec_validate_required_step(fns, consts):
+    """Validator::validate_required, ONE pass of each of its loops from an arbitrary state
+    (highest_index, required, is_exclusive_present free):
+      required-list loop:   an arg is reported missing  <=>  !exclusive_present && !is_missing_required_ok;
+                            a group <=> no member present;  highest_index' = missing && !last ? max(h, index or 0) : h
+      r_ifs loop:           required' = required || check_explicit(other, Equals(val))       (any-of, monotone)
+      conditional loop:     reported  <=>  !exclusive_present && (required || (all r_ifs_all && non-empty) ||
+                            ((r_unless or r_unless_all non-empty) && fails_arg_required_unless)); same highest_index' rule
+      display loop:         a preceding positional is added  <=>  its index < Some(highest_index)."""
+    con = contracts.Contracts(fns, default_pure=True)
+    ctx = symex.Ctx(consts, con)
+    fn = _find(fns, "parser/validator.rs", "validate_required")
+    L = {n: fn.debug.get(n) for n in ("highest_index", "is_exclusive_present", "required", "missing_required")}
+    if not all(L.values()):
+        raise Unsupported("validate_required: expected locals not found: " + repr(L))
+    h_in = ("bv", ctx.sym("highest_index", "(_ BitVec 64)"), 64)
+    e_in = ("bool", ctx.sym("is_exclusive_present", "Bool"))
+    r_in = ("bool", ctx.sym("required", "Bool"))
+    base = {L["highest_index"]: h_in, L["is_exclusive_present"]: e_in, L["required"]: r_in}
+    args = [("opq", "self"), ("opq", "matcher"), ("opq", "conflicts")]
+    obs, total = [], 0
+    absent = [0]
+
+    def res(ex, ca, rx, ty, which=-1):
+        """solver term of the result of the (last) call matching rx on this path; a fresh unconstrained
+        symbol when the path makes no such call (the clause then fails unless it does not depend on it)"""
+        cs = [c for c in ca if re.search(rx, c[0])]
+        if cs:
+            return ctx.keys.get(cs[which][2]) or ex.typed_fresh(cs[which][2], ty)[1]
+        absent[0] += 1
+        return ex.typed_fresh(f"absent#{absent[0]}:{rx}", ty)[1]
+
+    def add(msg, pc, neg):
+        obs.append({"fn": fn.name, "block": "loop", "kind": "spec", "target": "validate_required_step", "msg": msg, "pc": list(pc), "neg": neg})
+
+    def hmax(u):
+        return f"(ite (bvuge {h_in[1]} {u}) {h_in[1]} {u})"
+
+    def pushed_ids(ca):
+        return [c for c in ca if c[0] == "Vec::<Id>::push"]
+
+    # ---- required-list loop
+    h1 = _block_calling(fn, r"graph::Child<Id>>.*as Iterator>::next\(")
+    _, body1 = _arms(fn, h1)
+    ex1 = symex.Exec(ctx, fn, args).run(start=body1, stop_at=h1, env=base, havoc_unassigned=True, cut_loops=True)
+    for pc, env in ex1.stops:
+        ca = env.get("#callargs", ())
+        pushed = bool(pushed_ids(ca))
+        is_group = any(re.search(r"Command::find_group$", c[0]) for c in ca)
+        h_out = env[L["highest_index"]]
+        if is_group:
+            anyp = res(ex1, ca, r"as Iterator>::any::<", "bool")
+            cond = f"(not {anyp})" if any(re.search(r"as Iterator>::any::<", c[0]) for c in ca) else "false"
+            add("a required group is reported missing exactly when none of its members is present", pc, f"(not {cond})" if pushed else cond)
+            add("a missing group leaves highest_index unchanged", pc, f"(not (= {h_out[1]} {h_in[1]}))")
+        else:
+            ok = res(ex1, ca, r"is_missing_required_ok$", "bool")
+            cond = f"(and (not {e_in[1]}) (not {ok}))"
+            # the paths on which the id named an argument: they test is_exclusive_present first
+            if pushed or e_in[1] in pc or f"(not {e_in[1]})" in pc:
+                add("a required argument is reported missing exactly when no exclusive argument is present and its absence is not excused", pc, f"(not {cond})" if pushed else cond)
+            last = res(ex1, ca, r"Arg::is_last_set$", "bool")
+            u = res(ex1, ca, r"Option::<usize>::unwrap_or$", "usize")
+            exp = f"(ite {last} {h_in[1]} {hmax(u)})" if pushed else h_in[1]
+            add("highest_index' = max(highest_index, index or 0) for a missing non-`last` argument, unchanged otherwise", pc, f"(not (= {h_out[1]} {exp}))")
+    total += len(ex1.stops)
+    if not any(pushed_ids(env.get("#callargs", ())) for _, env in ex1.stops):
+        add("required-list loop: no path reports a missing argument", [], "true")
+
+    # ---- r_ifs loop (any-of): required' = required || check_explicit
+    h2 = _block_calling(fn, r"^_\d+ = <std::slice::Iter<'_, \(Id, builder::os_str::OsStr\)> as Iterator>::next\(")
+    exit2, body2 = _arms(fn, h2)
+    ex2 = symex.Exec(ctx, fn, args).run(start=body2, stop_at=h2, env=base, havoc_unassigned=True, cut_loops=True)
+    for pc, env in ex2.stops:
+        ca = env.get("#callargs", ())
+        ce = res(ex2, ca, r"ArgMatcher::check_explicit$", "bool")
+        r_out = env[L["required"]]
+        add("required_if_eq_any: required' = required || (other is present with that value)", pc, f"(not (= {r_out[1]} (or {r_in[1]} {ce})))")
+    total += len(ex2.stops)
+    if not ex2.stops:
+        add("r_ifs loop: no path returns to the loop header", [], "true")
+
+    # ---- conditional loop, after the r_ifs loop has finished
+    h3 = _block_calling(fn, r"^_\d+ = <Filter<std::slice::Iter<'_, Arg>, \{closure@[^}]*\}> as Iterator>::next\(")
+    ex3 = symex.Exec(ctx, fn, args).run(start=exit2, stop_at=h3, env=base, havoc_unassigned=True, cut_loops=True)
+    for pc, env in ex3.stops:
+        ca = env.get("#callargs", ())
+        pushed = bool(pushed_ids(ca))
+        all_ = res(ex3, ca, r"as Iterator>::all::<", "bool")
+        e_all = res(ex3, ca, r"^Vec::<\(Id, builder::os_str::OsStr\)>::is_empty$", "bool")
+        e_unl = [ctx.keys.get(c[2]) or ex3.typed_fresh(c[2], "bool")[1] for c in ca if c[0] == "Vec::<Id>::is_empty"]
+        fails = res(ex3, ca, r"fails_arg_required_unless$", "bool")
+        has_all_call = any(re.search(r"as Iterator>::all::<", c[0]) for c in ca)
+        unl_nonempty = "(or " + " ".join(f"(not {x})" for x in e_unl) + ")" if len(e_unl) > 1 else (f"(not {e_unl[0]})" if e_unl else "false")
+        # short-circuit: r_unless non-empty skips the r_unless_all test, so the disjunction is decided by the calls made
+        fails_called = any(re.search(r"fails_arg_required_unless$", c[0]) for c in ca)
+        req = f"(or {r_in[1]} (and {all_} (not {e_all})) (and {unl_nonempty} {fails if fails_called else 'false'}))" if has_all_call else r_in[1]
+        cond = f"(and (not {e_in[1]}) {req})"
+        add("a conditionally required argument is reported exactly when no exclusive argument is present and one of its conditions holds", pc, f"(not {cond})" if pushed else cond)
+        last = res(ex3, ca, r"Arg::is_last_set$", "bool")
+        u = res(ex3, ca, r"Option::<usize>::unwrap_or$", "usize")
+        h_out = env[L["highest_index"]]
+        exp = f"(ite {last} {h_in[1]} {hmax(u)})" if pushed else h_in[1]
+        add("highest_index' = max(highest_index, index or 0) for a missing non-`last` argument, unchanged otherwise", pc, f"(not (= {h_out[1]} {exp}))")
+    total += len(ex3.stops)
+    if not any(pushed_ids(env.get("#callargs", ())) for _, env in ex3.stops):
+        add("conditional loop: no path reports a missing argument", [], "true")
+
+    # ---- display loop: preceding positionals
+    h4 = _block_calling(fn, r"^_\d+ = <Filter<Filter<std::slice::Iter<'_, Arg>, .*as Iterator>::next\(")
+    _, body4 = _arms(fn, h4)
+    ex4 = symex.Exec(ctx, fn, args).run(start=body4, stop_at=h4, env=base, havoc_unassigned=True, cut_loops=True)
+    for pc, env in ex4.stops:
+        ca = env.get("#callargs", ())
+        pushed = bool(pushed_ids(ca))
+        lts = [c for c in ca if c[0] == "<Option<usize> as PartialOrd>::lt"]
+        ok_shape = len(lts) == 1 and re.match(r"^Arg::get_index\(", lts[0][1][0]) is not None and lts[0][1][1] == "Some(highest_index)"
+        lt = res(ex4, ca, r"^<Option<usize> as PartialOrd>::lt$", "bool")
+        add("an absent positional is added to the missing list exactly when its index < Some(highest_index)", pc,
+            "true" if not ok_shape else (f"(not {lt})" if pushed else lt))
+    total += len(ex4.stops)
+    if not ex4.stops:
+        add("display loop: no path returns to the loop header", [], "true")
+    return ctx, obs, [_enc(fn, ex1, total)], con
+
+
+SPECS["C03"].append(spec_validate_required_step)
+SPECS["C10"].append(spec_validate_required_step)
+
+
+# ------------------------------------------------------------------ C03: the direct conflicts of an argument
+
+def spec_direct_conflicts(fns, consts):
+    """validator.rs gather_arg_direct_conflicts (data flow through one pass of its loops): the result starts
+    from the argument's own conflict list; for EVERY group the argument belongs to - multiple or not - the
+    group's conflicts are added; for a non-multiple group every OTHER member is added (member != this
+    argument, decided by the solver); finally the argument's overrides are added."""
+    con = contracts.Contracts(fns, default_pure=True)
+    ctx = symex.Ctx(consts, con)
+    fn = _find(fns, "", "gather_arg_direct_conflicts")
+    ex = symex.Exec(ctx, fn, [("opq", "cmd"), ("opq", "arg")])
+    ex.run(havoc_unassigned=True, cut_loops=True)
+    obs = []
+
+    def add(msg, pc, neg, block="loop"):
+        obs.append({"fn": fn.name, "block": block, "kind": "spec", "target": "direct_conflicts", "msg": msg, "pc": list(pc), "neg": neg})
+
+    paths = [(pc, env.get("#callargs", ())) for pc, env in ex.cuts] + [(pc, ca) for (pc, _), ca in zip(ex.returns, ex.return_callargs)]
+    n_group = n_member = 0
+    for pc, ca in paths:
+        ext = [c for c in ca if re.search(r"^<Vec<Id> as Extend<Id>>::extend::<", c[0])]
+        if any(re.search(r"Command::find_group$", c[0]) for c in ca):
+            n_group += 1
+            gext = [c for c in ext if "Option::<&ArgGroup>::expect(" in c[1][1]]
+            members = [c for c in ca if c[0] == "<&Vec<Id> as IntoIterator>::into_iter" and "Option::<&ArgGroup>::expect(" in c[1][0]]
+            fld = lambda k: re.search(r"expect\([^#]*?\)\)?\.(\d+)", k)
+            ok = len(gext) == 1 and (not members or (fld(gext[0][1][1]) and fld(members[0][1][0]) and fld(gext[0][1][1]).group(1) != fld(members[0][1][0]).group(1)))
+            add("every group of the argument contributes its conflicts, whether or not it allows multiple members", pc, "false" if ok else "true")
+        nes = [c for c in ca if c[0] == "<&Id as PartialEq>::ne"]
+        if nes:
+            n_member += 1
+            pushed = any(c[0] == "Vec::<Id>::push" for c in ca)
+            eqk = [k for k in ctx.keys if k.startswith("<&Id as PartialEq>::eq(")]
+            eq = ctx.keys[eqk[0]] if len(eqk) == 1 else None
+            if not eq:
+                add("member test has an unexpected shape", pc, "true")
+            else:
+                shape_ok = "Arg::get_id(arg)" in nes[-1][1][1] or "Arg::get_id(arg)" in nes[-1][1][0]
+                add("of a non-multiple group every OTHER member is a conflict (member != this argument)", pc,
+                    "true" if not shape_ok else (eq if pushed else f"(not {eq})"))
+    for (pc, _), ca in zip(ex.returns, ex.return_callargs):
+        ext = [c for c in ca if re.search(r"^<Vec<Id> as Extend<Id>>::extend::<", c[0])]
+        first = [c for c in ca if c[0] == "<Vec<Id> as Clone>::clone"]
+        a_ext = [c for c in ext if re.search(r"\(arg\.\d+\)", c[1][1]) or re.search(r"deref\(arg\.\d+\)", c[1][1])]
+        ok = len(first) == 1 and re.match(r"^arg\.\d+$", first[0][1][0]) is not None and len(a_ext) == 1 and first[0][1][0] not in a_ext[0][1][1].replace(first[0][1][0] + "0", "")
+        add("the result starts from the argument's own conflicts and ends with its overrides", pc, "false" if ok else "true", block="ret")
+    if n_group == 0 or n_member == 0 or not ex.returns:
+        add("gather_arg_direct_conflicts no longer has the reference shape (group / member paths not found)", [], "true", block="shape")
+    return ctx, obs, [_enc(fn, ex, len(paths))], con
+
+
+SPECS["C03"].append(spec_direct_conflicts)
+
+
+# ------------------------------------------------------------------ C12: a hidden positional never enters the usage line by itself
+
+def spec_usage_hidden_positional(fns, consts):
+    """Usage::write_args, one pass of the loop over the command's positionals from an arbitrary state:
+    a positional with `hide` set is skipped before anything is rendered or stored for it (no
+    `Arg::stylized`, no write into required_positionals), `last` or not."""
+    con = contracts.Contracts(fns, default_pure=True)
+    ctx = symex.Ctx(consts, con)
+    fn = _find(fns, "output/usage.rs", "write_args")
+    h = _block_calling(fn, r"^_\d+ = <Filter<std::slice::Iter<'_, Arg>, \{closure@clap_builder/src/builder/command.rs[^}]*\}> as Iterator>::next\(")
+    _, body = _arms(fn, h)
+    ex = symex.Exec(ctx, fn, [("opq", "self"), ("opq", "styled"), ("opq", "incls"), ("bool", ctx.sym("force_optional", "Bool"))])
+    ex.run(start=body, stop_at=h, havoc_unassigned=True, cut_loops=True)
+    obs = []
+    n_hidden = n_shown = 0
+    for pc, env in ex.stops:
+        ca = env.get("#callargs", ())
+        hides = [c for c in ca if c[0] == "Arg::is_hide_set"]
+        if not hides:
+            obs.append({"fn": fn.name, "block": "loop", "kind": "spec", "target": "usage_hidden_positional", "msg": "a pass over a positional that never consults `hide`", "pc": list(pc), "neg": "true"})
+            continue
+        hsym = ctx.keys[hides[0][2]]
+        rendered = [c for c in ca if c[0] in ("Arg::stylized",) or re.search(r"IndexMut<usize>>::index_mut$|::resize$", c[0])]
+        first_other = next((c[0] for c in ca if c[0] != "Arg::is_hide_set" and "Iterator>::next" not in c[0]), None)
+        if hsym in pc:
+            n_hidden += 1
+            obs.append({"fn": fn.name, "block": "loop", "kind": "spec", "target": "usage_hidden_positional", "msg": "a hidden positional is skipped before anything is rendered or stored for it",
+                        "pc": list(pc), "neg": "true" if (rendered or ca[0][0] != "Arg::is_hide_set") else "false"})
+        else:
+            n_shown += bool(rendered)
+            # every path that renders something has `hide` decided false on it
+            obs.append({"fn": fn.name, "block": "loop", "kind": "spec", "target": "usage_hidden_positional", "msg": "whatever is rendered for a positional is rendered only with `hide` unset", "pc": list(pc), "neg": hsym if rendered else "false"})
+    if n_hidden == 0 or n_shown == 0:
+        obs.append({"fn": fn.name, "block": "shape", "kind": "spec", "target": "usage_hidden_positional", "msg": "the positional loop of Usage::write_args no longer has the reference shape", "pc": [], "neg": "true"})
+    return ctx, obs, [_enc(fn, ex, len(ex.stops))], con
+
+
+SPECS["C12"].append(spec_usage_hidden_positional)
